@@ -137,7 +137,10 @@ class HTMLConverter(HTMLScraper, BaseDocumentConverter):
         with open(input_filename, 'rb') as in_file:
             with open(output_filename, 'wb') as bin_out_file:
                 elements = self.iter_elements(in_file, encoding=encoding)
-                out_file = io.TextIOWrapper(bin_out_file, encoding=encoding)
+                # A character that the document's encoding cannot express is
+                # written as a numeric character reference.
+                out_file = io.TextIOWrapper(bin_out_file, encoding=encoding,
+                                            errors='xmlcharrefreplace')
 
                 if doctype:
                     out_file.write(doctype)
